@@ -41,6 +41,11 @@ def label_index(t):
     return None, None
 
 
+def _idx_of(pl):
+    pl = strip(pl)
+    return strip(pl[2][1]) if mir.is_call(pl, "index_mut") else (strip(pl[2]) if pl[0] == "index" else pl)
+
+
 def run(prog):
     out = []
     W = "repr::wmc::WmcParams"
@@ -55,13 +60,19 @@ def run(prog):
             out.append(inst("WT", key, UNDECIDED, None, None, "%s not found" % nm))
             continue
         te = fn.terms
-        stores = [(bb, pl, v, ln) for (bb, pl, v, ln) in te.stores if mir.is_call(strip(pl), "index_mut")]
+        from . import canon
+        stores = []
+        for g_ in canon.local_bodies(prog, fn, ok=lambda h: h.impl_self == fn.impl_self):
+            for (bb, pl, v, ln) in g_.terms.stores:
+                if mir.is_call(strip(pl), "index_mut") or strip(pl)[0] == "index":
+                    stores.append((bb, pl, v, ln))
+        stores = [s_ for s_ in stores if label_index(_idx_of(s_[1]))[0] is not None] or stores
         errs = []
         if len(stores) != 1:
             errs.append("?expected one indexed store, found %d" % len(stores))
         else:
             bb, pl, v, ln = stores[0]
-            idx = strip(strip(pl)[2][1])
+            idx = _idx_of(pl)
             kind, who = label_index(idx)
             v = strip(v)
             if kind is None:
@@ -84,6 +95,11 @@ def run(prog):
                 elif nm == "new":
                     # index = key of an item, value = the value of the same item (.0 / .1 of one pair)
                     it_i, it_v = items_in(idx), items_in(pay)
+                    if not it_i and not it_v:
+                        # inside a closure over the map's entries: both come from the closure's item parameter
+                        pi = {x for x in mir.subterms(idx) if x[0] == "param" and x[1] >= 2}
+                        pv = {x for x in mir.subterms(pay) if x[0] == "param" and x[1] >= 2}
+                        it_i, it_v = pi, pv
                     if not it_i or not it_v:
                         errs.append("?index %s / value %s are not drawn from the iteration over the map" % (show(idx)[:30], show(pay)[:30]))
                     elif it_i != it_v:
@@ -93,7 +109,10 @@ def run(prog):
                         pv = pay
                         while pv[0] in ("deref", "copy"):
                             pv = strip(pv[1])
-                        if pv[0] == "field" and strip(pv[1])[0] == "field" and strip(strip(pv[1])[1]) in it_v:
+                        if pv[0] == "field" and strip(pv[1]) in it_v and strip(pv[1])[0] == "param":
+                            if pv[2] != "1":
+                                errs.append("the value stored is component %s of the (key, value) item, not the value" % pv[2])
+                        elif pv[0] == "field" and strip(pv[1])[0] == "field" and strip(strip(pv[1])[1]) in it_v:
                             if pv[2] != "1":
                                 errs.append("the value stored is component %s of the (key, value) item, not the value" % pv[2])
                         elif pv[0] == "agg" and pv[1] == "tuple" and len(pv[4]) == 2:
@@ -121,36 +140,40 @@ def run(prog):
     # ---- WT3 growth loop of set_weight
     fn = wm.get("set_weight")
     if fn is not None:
-        te, cfg = fn.terms, fn.cfg
-        errs = []
-        pushes = [cs for cs in te.calls if cs.callee.name == "push"]
-        if pushes:
-            cs = pushes[0]
-            if not show(strip(cs.args[1])).startswith("None"):
-                errs.append("the table is padded with %s, not with None: variables that were never given a weight appear to have one"
-                            % show(cs.args[1])[:30])
-            facts = [(strip(c), val) for c, val, _, _ in te.facts_at(cs.bb)]
-            okf = False
-            for c, val in facts:
-                if c[0] == "bin" and "len(" in show(c) and "value_usize" in show(c):
-                    true_ = not (val == "0")
-                    lhs_is_idx = "value_usize" in show(c[2])
+        from . import canon
+        errs, found = [], False
+        for g_ in canon.local_bodies(prog, fn, ok=lambda h: h.impl_self == fn.impl_self):
+            te = g_.terms
+            for cs in te.calls:
+                if cs.callee.name != "push" or "Vec" not in cs.callee.key() or "var_to_val" not in show(cs.args[0]):
+                    continue
+                found = True
+                if not show(strip(cs.args[1])).startswith("None"):
+                    errs.append("the table is padded with %s, not with None: variables that were never given a weight appear to have one"
+                                % show(cs.args[1])[:30])
+                okf = False
+                for c, val, _, _ in te.facts_at(cs.bb):
+                    c = strip(c)
+                    if not (c[0] == "bin" and c[1] in ("Gt", "Lt", "Ge", "Le") and "len(" in show(c)):
+                        continue
+                    len_left = "len(" in show(c[2])
                     op = c[1]
-                    if not lhs_is_idx:
-                        op = {"Gt": "Lt", "Lt": "Gt", "Ge": "Le", "Le": "Ge"}.get(op, op)
-                    if not true_:
-                        op = {"Gt": "Le", "Lt": "Ge", "Ge": "Lt", "Le": "Gt", "Eq": "Ne", "Ne": "Eq"}[op]
+                    if len_left:      # normalise to  index OP len
+                        op = {"Gt": "Lt", "Lt": "Gt", "Ge": "Le", "Le": "Ge"}[op]
+                    if val == "0":
+                        op = {"Gt": "Le", "Lt": "Ge", "Ge": "Lt", "Le": "Gt"}[op]
                     if op == "Ge":
                         okf = True
                     elif op == "Gt":
                         errs.append("the table grows only while index > len: for index == len the store is out of bounds")
                     else:
                         errs.append("?growth condition %s %s" % (show(c)[:40], val))
-            if not okf and not errs:
-                errs.append("?growth condition not found")
-        else:
-            if not any(cs.callee.name in ("resize", "resize_with", "extend") for cs in te.calls):
-                errs.append("?set_weight does not grow the table")
+                if not okf and not errs:
+                    errs.append("?growth condition not found")
+            if any(cs.callee.name in ("resize", "resize_with", "extend") and "var_to_val" in show(cs.args[0]) for cs in te.calls if cs.args):
+                found = True            # LT decides whether such a resize is growth-only
+        if not found:
+            errs.append("?set_weight does not grow the table")
         out.append(inst("WT", "%s:WT3:growth" % fn.npath, verdict_of(errs), fn, None, errtext(errs) if errs else
                         "pads with None while index >= len"))
     # ---- WT2 readers
@@ -173,32 +196,49 @@ def run(prog):
         errs = []
         muls = [cs for cs in te.calls if cs.callee.name == "mul" and len(cs.args) == 2]
         n_ok = 0
+
+        def lookup_lit(t):
+            for x in mir.subterms(t):
+                k_, who = label_index(x)
+                if k_ == "lit":
+                    return who
+            return None
+
+        def component(t):
+            t = strip(t)
+            while t[0] in ("deref", "copy"):
+                t = strip(t[1])
+            return (t[2], t[1]) if t[0] == "field" and t[2] in ("0", "1") else (None, None)
         for cs in muls:
             w = strip(cs.args[1])
-            if not (w[0] == "field" and w[2] in ("0", "1")):
-                errs.append("?a factor is %s" % show(w)[:40])
-                continue
-            idxs = [strip(x) for x in mir.subterms(w) if mir.is_call(strip(x), "index") and len(strip(x)[2]) == 2]
-            if len(idxs) != 1:
-                errs.append("?a factor is not one table lookup")
-                continue
-            kind, lit = label_index(idxs[0][2][1])
-            pol = None
-            for c, val, _, _ in te.facts_at(cs.bb):
-                c = strip(c)
-                if mir.is_call(c, "polarity"):
-                    pol = (strip(c[2][0]), val != "0")
-            if kind != "lit" or pol is None:
+            alts = []
+            if w[0] == "gamma" and mir.is_call(strip(w[1]), "polarity"):
+                plit = strip(strip(w[1])[2][0])
+                for lab, v in w[2]:
+                    alts.append((plit, lab != "0", v))
+            else:
+                pol = None
+                for c, val, _, _ in te.facts_at(cs.bb):
+                    c = strip(c)
+                    if mir.is_call(c, "polarity"):
+                        pol = (strip(c[2][0]), val != "0")
+                if pol is not None:
+                    alts.append((pol[0], pol[1], w))
+            if not alts:
                 errs.append("?factor %s under unknown polarity" % show(w)[:40])
                 continue
-            if pol[0] != lit:
-                errs.append("the weight is looked up for %s but selected by the polarity of %s" % (show(lit)[:30], show(pol[0])[:30]))
-            elif (w[2] == "1") != pol[1]:
-                errs.append("a %s literal is weighted with component .%s of its variable's (low, high) pair" % ("true" if pol[1] else "false", w[2]))
-            else:
-                n_ok += 1
+            for plit, pval, v in alts:
+                comp, table = component(v)
+                lit = lookup_lit(v)
+                if comp is None or lit is None:
+                    errs.append("?a factor is %s" % show(v)[:40])
+                elif plit != lit:
+                    errs.append("the weight is looked up for %s but selected by the polarity of %s" % (show(lit)[:30], show(plit)[:30]))
+                elif (comp == "1") != pval:
+                    errs.append("a %s literal is weighted with component .%s of its variable's (low, high) pair" % ("true" if pval else "false", comp))
+                else:
+                    n_ok += 1
         if not muls:
-            # combinator form: not modelled
             errs.append("?no product of table entries found")
         elif n_ok < 2 and not errs:
             errs.append("?only %d polarity case(s) recognised" % n_ok)
